@@ -49,7 +49,7 @@ And the amino acid codes:
 from functools import lru_cache
 from importlib.resources import files
 import json
-from os.path import exists
+from os.path import isfile
 
 # IUPAC nucleotid code
 CODES = {'A': 'A', 'C': 'C', 'G': 'G', 'T':'T',
@@ -74,13 +74,12 @@ def submat(fname):
 
     :param fname: One of the following values: ``{}``. Or use your own file.
     """
-    if not exists(fname):
-        fname2 = str(files('sugar.data.data_submat').joinpath(fname.upper()))
-        if not exists(fname2):
+    if not isfile(fname):
+        if fname.upper() not in _submat_files():
             fnames = ', '.join(_submat_files())
-            msg = f'No file at {fname} or {fname2}, available matrices: {fnames}'
+            msg = f'No file at {fname}, available matrices: {fnames}'
             raise FileNotFoundError(msg)
-        fname = fname2
+        fname = str(files('sugar.data.data_submat').joinpath(fname.upper()))
     with open(fname) as f:
         content = f.read()
     mat = {}
